@@ -23,7 +23,7 @@ import math
 from hypothesis import strategies as st
 
 from vlib import pgen
-from vlib.runner import HypSub, Collector, api
+from vlib.runner import HypSub, Collector, Violation, api
 
 PROPERTY = "C18"
 
@@ -445,8 +445,22 @@ def _estimate(ir, case, db, first_win):
         ekw["num_variants"] = nv
     if case["kind"] == "priors":
         ekw["prior_obs"] = _make_prior_objects(ir, case)
-    out = api("estimate", model.estimate, db, span, **ekw)
+    try:
+        out = model.estimate(db, span, **ekw)
+    except Exception as exc:  # noqa: BLE001
+        # a least-squares problem with fewer complete rows than regressors (missing data) has no unique solution:
+        # rejecting it is not a violation; any other exception is
+        np = _np()
+        K = _num_regressors(case)
+        y, x = _make_data(case)
+        if case["kind"] != "priors" and any(int(_regressors(case, y[v], x[v])[2].sum()) < K for v in range(nv)):
+            raise _Underdetermined(f"{type(exc).__name__}: {exc}") from None
+        raise Violation(f"estimate:raises:{type(exc).__name__}", f"{type(exc).__name__}: {exc}"[:1200]) from None
     return model, out, span
+
+
+class _Underdetermined(Exception):
+    pass
 
 
 def _judge_variant(case, col, v, yv, xv, system, res, fitted_periods, first_win, tagp):
@@ -652,7 +666,10 @@ def _run(case, want_simulate=False):
     n, p, nx, T, nv = case["n"], case["p"], case["nx"], case["T"], case["nv"]
     y, x = _make_data(case)
     db, first_win = _build_db(ir, case, y, x)
-    model, out, span = _estimate(ir, case, db, first_win)
+    try:
+        model, out, span = _estimate(ir, case, db, first_win)
+    except _Underdetermined:
+        return {"labels": ["rejected_fewer_complete_rows_than_regressors"], "nontrivial": False}
     L = p + T
     tagp = "prior" if case["kind"] == "priors" else "ols"
     # ---- collect what the model reports
